@@ -488,7 +488,20 @@ class Interp:
             r1, _ = self.root_of(a[2])
             r2, _ = self.root_of(a[3])
             return r1 is not None and r1 == r2
+        if k == "and":
+            # p & -2^k-style masks (rounding a pointer down; clang merges known-zero bits into the mask)
+            x = self._masked_pointer(a)
+            if x is not None:
+                r, _ = self.root_of(x)
+                return r is not None
         return False
+
+    @staticmethod
+    def _masked_pointer(a):
+        for x, m in ((a[1], a[2]), (a[2], a[1])):
+            if isinstance(m, Lin) and m.is_const() and m.c < 0 and m.c >= -4096 and isinstance(x, Lin) and not x.is_const():
+                return x
+        return None
 
     def region_of(self, addr, depth=0):
         r, _ = self.root_of(addr)
@@ -527,6 +540,12 @@ class Interp:
         if r[0] == "mem":
             owner = self.region_of(r[1])
             return (self.ptr_class.get(r, "DATA"), owner)
+        if r[0] == "and" and depth < 6:
+            x = self._masked_pointer(r)
+            if x is not None:
+                return self.region_of(x, depth + 1)
+        if r[0] == "alignup" and depth < 6:
+            return self.region_of(r[1], depth + 1)
         return ("?",)
 
     @staticmethod
